@@ -245,10 +245,24 @@ pub fn run(ctx: &mut Ctx) {
             &lens,
             |n| {
                 let acc = acc.clone();
-                (vec(select(acc), n), prop_oneof![3 => Just(0usize), 1 => Just(1usize)]).prop_flat_map(move |(body, nbad)| (Just(body), vec((any::<u16>(), bad_char(m)), nbad))).prop_map(move |(body, bad)| Case { codec: id, body, bad })
+                (vec(select(acc), n), prop_oneof![3 => Just(0usize), 1 => Just(1usize), 2 => Just(2usize)]).prop_flat_map(move |(body, nbad)| (Just(body), vec((any::<u16>(), bad_char(m)), nbad))).prop_map(move |(body, bad)| Case { codec: id, body, bad })
             },
             dispatch,
         );
+        // chromosome-sized text (just over 1 MiB) holding two different offending characters: the
+        // first one in input order is the one to report, whatever their byte values
+        if [CodecId::Dna, CodecId::Amino, CodecId::Oct].contains(&id) {
+            let acc = m.accepted_bytes();
+            ctx.forall_lens(
+                &format!("parse_huge/{}", id.name()),
+                &[(1usize << 20) + 3 + (ctx.seed % 5) as usize],
+                |n| {
+                    let acc = acc.clone();
+                    (vec(select(acc), n), vec((any::<u16>(), bad_char(m)), 2)).prop_map(move |(body, bad)| Case { codec: id, body, bad })
+                },
+                dispatch,
+            );
+        }
     }
     // every single byte as a one-symbol string, and behind / in front of one valid symbol (exhaustive)
     let cells: Vec<Case> = ALL_CODECS
